@@ -172,6 +172,18 @@ def for_range_while(text, ob, cb):
         text = new
 
 
+ASSERT_EQ_RE = re.compile(r'\bassert_eq!\(\s*([^;]*?)\s*,\s*([^,;]*?)\s*\)\s*;')
+
+
+def assert_eq_unreached(text, ob, cb):
+    """`assert_eq!(A, B);` -> `if !(A == B) { vstd::pervasive::unreached::<()>(); }` (Verus has no exec assert_eq!).  `unreached` has
+    the precondition `false`: Verus must PROVE that the panic branch is dead under the function's contract, so on every input
+    the contract admits the two texts behave alike."""
+    body = text[ob:cb + 1]
+    new = ASSERT_EQ_RE.sub(lambda m: 'if !(%s == %s) { vstd::pervasive::unreached::<()>(); }' % (m.group(1), m.group(2)), body)
+    return text[:ob] + new + text[cb + 1:], cb + len(new) - len(body)
+
+
 def pre_rewrite(text, unit):
     """source-level desugarings applied to the bodies of the functions that ask for them (spec key `pre_rewrites`), before annotation"""
     for key, spec in unit.get('fns', {}).items():
@@ -192,6 +204,8 @@ def pre_rewrite(text, unit):
             text, cb_ = for_each_loops(text, ob_, cb_)
         if 'for_range_while' in spec['pre_rewrites']:
             text, cb_ = for_range_while(text, ob_, cb_)
+        if 'assert_eq_unreached' in spec['pre_rewrites']:
+            text, cb_ = assert_eq_unreached(text, ob_, cb_)
         if 'f64_gates' in spec['pre_rewrites']:
             text, cb_ = f64_gates(text, ob_, cb_)
     return text
